@@ -411,6 +411,72 @@ pub fn run(ctx: &mut Ctx) {
             }
         }
     }
+    // special documents: no text at all, no highlighted lexeme, `//` line comments. They are judged against the
+    // lexer itself (default options): a null result exactly when the lexer reports a diagnostic; otherwise every
+    // decoded range is a token of the lexer's list, and every comment and identifier token is among the ranges.
+    {
+        let d0 = spell_lines(&corpus::docs()[0].lx.v).text;
+        let with_line_comments: String = d0.lines().map(|l| format!("{} // c \u{e9}\n", l)).collect();
+        let specials: Vec<(&str, String)> = vec![
+            ("empty", String::new()),
+            ("line-end-only", "\n".into()),
+            ("blanks-only", "   \t ".into()),
+            ("semicolon-only", ";".into()),
+            ("punctuation-and-numbers-only", "\n ( 1 , 2 ) ;\n".into()),
+            ("number-only", "42".into()),
+            ("string-only", "'abc'".into()),
+            ("comment-only", "(* c *)".into()),
+            ("line-comment-only", "// c\n".into()),
+            ("line-comment-without-line-end", "// c".into()),
+            ("line-comment-after-every-line", with_line_comments),
+            ("line-comment-before-program", format!("// header\n{}", d0)),
+            ("line-comment-containing-comment-opener", format!("// (* not a comment\n{}", d0)),
+        ];
+        for (name, text) in specials {
+            let (toks, diags) = crate::front::tokenize(&text, "/w/special.st");
+            let r = tokens_for(&text);
+            hist_cases += 1;
+            ctx.transitions += 2;
+            ctx.distinct(&format!("special|{}", name));
+            let problem: Option<String> = match r {
+                Err(e) => Some(format!("request failed: {}", e)),
+                Ok(result) => {
+                    if !diags.is_empty() {
+                        if result.is_null() { None } else { Some("the lexer rejects the text but the result is not null".into()) }
+                    } else if result.is_null() {
+                        Some("every lexeme of the text is a valid token but the result is null".into())
+                    } else {
+                        let data: Vec<u64> = result["data"].as_array().map(|a| a.iter().map(|x| x.as_u64().unwrap_or(u64::MAX)).collect()).unwrap_or_default();
+                        match decode(&data) {
+                            Err(e) => Some(e),
+                            Ok(ranges) => {
+                                let lex: Vec<(u64, u64, u64, String)> = toks.iter().map(|t| (t.line as u64, t.col as u64, t.text.encode_utf16().count() as u64, format!("{:?}", t.token_type))).collect();
+                                let mut p = None;
+                                for rg in &ranges {
+                                    if !lex.iter().any(|l| l.0 == rg.line && l.1 == rg.start && (l.2 == rg.len || l.3 == "Comment")) {
+                                        p = Some(format!("the range line {} start {} length {} is no token of the text", rg.line, rg.start, rg.len));
+                                        break;
+                                    }
+                                }
+                                if p.is_none() {
+                                    for l in lex.iter().filter(|l| l.3 == "Comment" || l.3 == "Identifier") {
+                                        if !ranges.iter().any(|rg| rg.line == l.0 && rg.start == l.1) {
+                                            p = Some(format!("the {} token at line {} column {} is not reported", l.3, l.0, l.1));
+                                            break;
+                                        }
+                                    }
+                                }
+                                p
+                            }
+                        }
+                    }
+                }
+            };
+            if let Some(pb) = problem {
+                ctx.fail(&format!("special-document/{}", name), &format!("{:?}: {}", crate::util::short(&text, 60), pb), json!({"mode":"special","name":name,"text":text}));
+            }
+        }
+    }
     // a notification that is no edit, between the edit and the request: the tokens are those of the text
     for (i, t1) in texts.iter().enumerate() {
         for (nname, msg) in crate::lspx::neutral_notifications(URI, URI_B) {
